@@ -322,3 +322,83 @@ for _form in TARGETS:
                     lambda *a: True, bind_ens(_form))],
         call=bind_call(False, _form), native_call=bind_call(True, _form),
         cross_key=lambda r: (sorted(map(str, r['mc'].model.defined_names)), sorted(map(str, r['mc'].model.formulae))) if isinstance(r, dict) else repr(r)))
+
+
+# ---- the repository's own worksheet reader (patch.py): what openpyxl's parser hands out is what the sheet holds -----------------------------
+# `WorksheetReader.bind_cells` sits between openpyxl's XML parser (external, trusted) and the book that `Reader.read_cells` walks: every parsed
+# cell - whatever its value: 0, 0.0, FALSE and the empty text as much as any other - becomes ONE cell of the sheet at its own (row, column) holding
+# the parsed value and data type, a formula cell also its cached result.  openpyxl's Cell constructor (external) is replaced by a stand-in that records the arguments it is given.
+def bind_call(native, kind):
+    def call(it, fn, v, text, cached):
+        from xlcalculator import patch
+        style = object()
+        parsed = [dict(row=1, column=1, value=(text if kind == 'f' else v), data_type=kind, style_id=0),
+                  dict(row=1, column=3, value=v, data_type='n', style_id=0),
+                  dict(row=2, column=2, value=7, data_type='n', style_id=0)]
+        if kind == 'f':
+            parsed[0]['cvalue'] = cached
+        rows = [(1, parsed[:2]), (2, parsed[2:])]
+        made = []
+
+        def mkcell(ws_, row=None, column=None, style_array=None, **k):
+            c = Obj(parent=ws_, row=row, column=column, style=style_array, _value=None, data_type='n')
+            made.append(c)
+            return c
+        rd = patch.WorksheetReader.__new__(patch.WorksheetReader)
+        if native:
+            ws = Obj(parent=Obj(_cell_styles=[style]), _cells={}, max_row=2, _current_row=0)
+            rd.ws, rd.parser = ws, Obj(parse=lambda: iter(rows))
+            real = patch.Cell
+            try:
+                patch.Cell = mkcell
+                rd.bind_cells()
+            finally:
+                patch.Cell = real
+        else:
+            ws = Stub('ws', parent=Stub('book', _cell_styles=[style]), _cells={}, max_row=2, _current_row=0)
+            rd.ws, rd.parser = ws, Stub('parser', parse=ModelFn(lambda it_: list(rows), 'parser.parse'))
+            it.call_contracts[patch.Cell] = ModelFn(lambda it_, *a, **k: mkcell(*a, **k), 'openpyxl Cell')
+            it.call(patch.WorksheetReader.bind_cells, [rd], {})
+        return dict(cells=ws._cells, current_row=ws._current_row, style=style, ws=ws)
+    if native:
+        return lambda fn, *a: call(None, fn, *a)
+    return call
+
+
+def bind_ens(kind):
+    def ens(v, text, cached, out):
+        if out.kind != 'ret':
+            return False
+        o = out.value
+        cells = o['cells']
+        if sorted(cells) != [(1, 1), (1, 3), (2, 2)] or o['current_row'] != 2:
+            return False
+        conj = []
+        for (r, c), val, dt in (((1, 1), text if kind == 'f' else v, kind), ((1, 3), v, 'n'), ((2, 2), 7, 'n')):
+            cell = cells[(r, c)]
+            if (cell.row, cell.column) != (r, c) or cell.parent is not o['ws'] or cell.style is not o['style'] or cell.data_type != dt:
+                return False
+            conj.append(_same(cell._value, val))
+            if dt == 'f':
+                if not hasattr(cell, 'cvalue'):
+                    return False
+                conj.append(_same(cell.cvalue, cached))
+            elif hasattr(cell, 'cvalue'):
+                return False
+        return And(*conj)
+    return ens
+
+
+for _k in ('n', 's', 'b', 'f'):
+    UNITS.append(Unit(
+        id=f'C11/patch.WorksheetReader.bind_cells[{_k}]', target='xlcalculator.patch:WorksheetReader.bind_cells',
+        inputs=[('v', Fork([Prim('real', domain=[2.5, 0.0]), Prim('str', domain=['', 'txt']), Prim('bool'), Prim('int', domain=[0, 7])])),
+                ('text', STR(['=A1+1', '=SUM(B2:C3)'])), ('cached', Fork([Prim('real', domain=[3.5, 0.0]), Prim('str', domain=['x', '']), Prim('bool'), Const(None, 'no cached value')]))],
+        fork='star',
+        cases=[Case('every parsed cell becomes one cell of the sheet at its own (row, column) with the parsed value and data type - zero, FALSE and the '
+                    'empty text as much as any other value; a formula cell also keeps its cached result; the sheet knows its last row',
+                    lambda *a: True, bind_ens(_k))],
+        canary=Case('canary', lambda *a: True, lambda v, text, cached, out: out.kind == 'ret' and len(out.value['cells']) == 2),
+        call=bind_call(False, _k), native_call=bind_call(True, _k),
+        cross_key=lambda r: repr(sorted((k, repr(c._value), c.data_type, repr(getattr(c, 'cvalue', '-'))) for k, c in r['cells'].items())) if isinstance(r, dict) else repr(r),
+        bounded_domain_cap=150))
